@@ -1,5 +1,6 @@
 """C06 — revocation secrets: compact, exact, released only when safe."""
 from lib.verif import *
+from props import chan_check
 
 THEOREMS = [
     "C06_store_exact", "C06_store_stable", "C06_producer_accepted",
@@ -9,7 +10,7 @@ THEOREMS = [
 MODULE = "LV.Shachain.Props"
 TARGETS = ["theories/Shachain/Props.vo", "theories/Shachain/Exec.vo",
            "theories/Shachain/Examples.vo"]
-WARM = [{"pkg": "shachain", "files": ["shachain/verif_store_test.go"]}]
+WARM = [{"pkg": "shachain", "files": ["shachain/verif_store_test.go"]}] + chan_check.WARM
 IMPORTS = ("From Coq Require Import List NArith.\nImport ListNotations.\n"
            "From LV Require Import Shachain.Exec.\n")
 
@@ -292,3 +293,13 @@ def _run(ctx, pr, uid):
                         "C06_reject_inconsistent is the precise true form of 'rejects any "
                         "inconsistent secret': a secret at an index without trailing zeros is "
                         "never checked (C06_leaf_unchecked)"]
+
+
+_store_run = run
+
+
+def run(ctx):
+    """C06 = store/producer/codec half (above) + release-rule half decided on real
+    channels (schedules with restarts, reconnects and stale side writers)."""
+    _store_run(ctx)
+    chan_check.run_prop(ctx, "C06", nested=True)
